@@ -7,11 +7,11 @@ from collections import defaultdict
 
 LEVEL = "exploration"
 
-KINDS = ["P", "D", "V", "K", "W"]  # positional, defaulted, *args, keyword-only (defaulted), **kwargs
+KINDS = ["O", "P", "D", "V", "K", "W"]  # positional-only, positional, defaulted, *args, keyword-only (defaulted), **kwargs
 
 
 def signatures(max_params=3):
-    """All valid parameter-kind sequences: P* D* V? K* W? with 1..max_params parameters."""
+    """All valid parameter-kind sequences: O* P* D* V? K* W? with 1..max_params parameters."""
     out = []
     for n in range(1, max_params + 1):
         for combo in itertools.product(KINDS, repeat=n):
@@ -27,13 +27,18 @@ def signatures(max_params=3):
 NAMES = ["a", "b", "c"]
 
 
-def make_task(combo, config, idx):
+def make_task(combo, config, idx, versioned=False):
     from redun import task
 
     params = []
     seen_star = False
-    for name, k in zip(NAMES, combo):
-        if k == "P":
+    n_only = combo.count("O")
+    for pi, (name, k) in enumerate(zip(NAMES, combo)):
+        if k == "O":
+            params.append(name)
+            if pi == n_only - 1:
+                params.append("/")
+        elif k == "P":
             params.append(name)
         elif k == "D":
             params.append(f"{name}=5")
@@ -50,6 +55,9 @@ def make_task(combo, config, idx):
     src = f"def f_{idx}({', '.join(params)}):\n    return 0\n"
     ns: dict = {}
     exec(src, ns)
+    if versioned:
+        # a version-pinned task: every variant (signature, config_args) has the SAME task hash
+        return task(name="fv", namespace="c15", version="1", config_args=list(config), source=src)(ns[f"f_{idx}"])
     return task(name=f"f_{idx}", namespace="c15", config_args=list(config), source=src)(ns[f"f_{idx}"])
 
 
@@ -59,7 +67,9 @@ def calls_for(combo):
     per_param = []
     for name, k in zip(names, combo):
         opts = []
-        if k == "P":
+        if k == "O":
+            opts = [("pos", v) for v in (0, 1, True)]
+        elif k == "P":
             # values that are == but of different type (1 == True == 1.0, 0.0 == -0.0) must still give different keys
             opts = [("pos", v) for v in (0, 1, True, 1.0, -0.0)] + [("kw", v) for v in (0, 1, True)]
         elif k == "D":
@@ -87,7 +97,7 @@ def calls_for(combo):
                     break
                 args.extend(v)
             else:
-                if k in ("P", "D"):
+                if k in ("O", "P", "D"):
                     positional_open = False
                 if how == "kw":
                     kwargs.append((name, v))
@@ -134,8 +144,8 @@ def work(arg):
     viol = []
     n = 0
     distinct = 0
-    for j, (combo, config) in enumerate(items):
-        t = make_task(combo, config, idx0 + j)
+    for j, (combo, config, versioned) in enumerate(items):
+        t = make_task(combo, config, idx0 + j, versioned)
         by_hash = defaultdict(set)
         by_ident = defaultdict(set)
         example = {}
@@ -151,7 +161,7 @@ def work(arg):
             by_ident[ident].add(eh)
             example.setdefault((eh, ident), (args, kwargs))
         distinct += len(by_ident)
-        sigdesc = "".join(combo) + "/cfg=" + "".join(sorted(config))
+        sigdesc = "".join(combo) + "/cfg=" + "".join(sorted(config)) + ("/versioned" if versioned else "")
         for eh, idents in by_hash.items():
             if len(idents) > 1:
                 a, b = sorted(idents, key=repr)[:2]
@@ -178,7 +188,9 @@ def run(ctx):
         names = NAMES[: len(combo)]
         for r in range(0, len(names) + 1):
             for config in itertools.combinations(names, r):
-                items.append((combo, config))
+                items.append((combo, config, False))
+                if len(combo) <= 2 or not ctx.quick:
+                    items.append((combo, config, True))  # the same as a redefinition of one version-pinned task (shared task hash)
     items = ctx.rotate(items)
     chunks = [(i, items[i:i + 12]) for i in range(0, len(items), 12)]
     res = ctx.pmap(work, chunks, chunksize=1)
@@ -192,12 +204,13 @@ def run(ctx):
         "distinct_nontrivial": sum(r["distinct"] for r in res),
         "signatures_x_config_sets": len(items),
         "exhaustive": True,
-        "rule": "every parameter-kind sequence P*D*V?K*W? of <=3 parameters x every subset as config_args x every call over values {0,1} "
+        "rule": "every parameter-kind sequence O*P*D*V?K*W? (O = positional-only) of <=3 parameters x every subset as config_args, each as its own task and as a "
+        "redefinition of ONE version-pinned task (same task hash for every variant, all in one process) x every call over values {0,1} "
         "(positional or keyword, defaults omitted / given explicitly with the default value, 0-3 variadic extras, 0-2 extra keywords in both "
         "orders), arguments merged with get_arg_defaults as the scheduler does; oracle over all pairs of calls of one signature: eval_hash "
         "equal <=> (positional non-config values, keyword non-config values) equal; plus JobInfo placeholders, task-hash sensitivity and "
         "pairwise distinct leading type tags of hash_struct pre-images; distinct = distinct reference identities",
-        "samples": [{"signature": "".join(c), "config_args": list(cfg)} for c, cfg in items[:3]],
+        "samples": [{"signature": "".join(c), "config_args": list(cfg), "versioned": v} for c, cfg, v in items[:3]],
     }, "assumptions": ["passing a parameter positionally vs by keyword is allowed to give different keys (the statement does not claim otherwise)"]}
 
 
